@@ -20,6 +20,11 @@ pub mod topic {
     pub mod reqrep;
 }
 
+/// /repo/server/src/topic/mod.rs (`Sender`, `Socket`) with its two `pub mod` lines replaced by
+/// a re-export of the router modules compiled above
+#[path = "../generated/topic_mod.rs"]
+pub mod topic_mod;
+
 #[cfg(kani)]
 pub mod mock;
 #[cfg(kani)]
@@ -30,3 +35,5 @@ pub mod reqrep_mock;
 mod reqrep_t;
 #[cfg(kani)]
 mod router_s;
+#[cfg(kani)]
+mod sender_t;
